@@ -167,3 +167,4 @@ def run(prog, E=None, rule="R-FIELDLEAK", floor=40):
     res.counts["stores_of_fresh_blocks_into_owning_fields"] = nstore
     res.floor("stores of fresh blocks into owning fields", nstore, floor)
     return res
+
